@@ -10,7 +10,10 @@ verus! {
 
 pub struct RcH2 { pub ptr: Ptr, pub hid: usize }
 
-pub struct MHeap { pub tabs: HashMap<Ptr, Links>, pub out: Ghost<Set<Ptr>> }
+// `cnts` is the (strong, weak) counter pair of every object: ghost, because the extracted functions are not
+// supposed to touch counters at all; X12 rewrites `H.inner().inc_strong()` etc. into the shim methods below so
+// that a change which does touch one FAILS the frame clause `cnts unchanged` instead of being undecided.
+pub struct MHeap { pub tabs: HashMap<Ptr, Links>, pub out: Ghost<Set<Ptr>>, pub cnts: Ghost<Map<Ptr, (int, int)>> }
 
 impl MHeap {
     pub open spec fn wf(&self) -> bool { forall|p: Ptr| !(self.tabs@.contains_key(p) && self.out@.contains(p)) }
@@ -26,7 +29,7 @@ impl MHeap {
 
     pub fn borrow_mut(&mut self, p: &Ptr) -> (r: Links)
         requires old(self).wf(), old(self).has(*p), !old(self).borrowed(*p),
-        ensures r@ == old(self).table(*p), final(self).tabs@ == old(self).tabs@.remove(*p), final(self).out@ == old(self).out@.insert(*p), final(self).wf(),
+        ensures r@ == old(self).table(*p), final(self).tabs@ == old(self).tabs@.remove(*p), final(self).out@ == old(self).out@.insert(*p), final(self).wf(), final(self).cnts@ == old(self).cnts@,
     {
         proof { axiom_key_models(); }
         let r = self.tabs.remove(p).unwrap();
@@ -36,12 +39,31 @@ impl MHeap {
 
     pub fn release(&mut self, p: &Ptr, t: Links)
         requires old(self).wf(), old(self).borrowed(*p),
-        ensures final(self).tabs@ == old(self).tabs@.insert(*p, t), final(self).out@ == old(self).out@.remove(*p), final(self).wf(),
+        ensures final(self).tabs@ == old(self).tabs@.insert(*p, t), final(self).out@ == old(self).out@.remove(*p), final(self).wf(), final(self).cnts@ == old(self).cnts@,
     {
         proof { axiom_key_models(); }
         self.tabs.insert(*p, t);
         proof { self.out@ = self.out@.remove(*p); }
     }
+
+    pub fn bump_counter(&mut self, p: &Ptr, Ghost(ds): Ghost<int>, Ghost(dw): Ghost<int>)
+        ensures final(self).tabs@ == old(self).tabs@, final(self).out@ == old(self).out@,
+            final(self).cnts@ == old(self).cnts@.insert(*p, (old(self).cnts@[*p].0 + ds, old(self).cnts@[*p].1 + dw)),
+    {
+        proof { self.cnts@ = self.cnts@.insert(*p, (self.cnts@[*p].0 + ds, self.cnts@[*p].1 + dw)); }
+    }
+    pub fn inc_strong(&mut self, p: &Ptr)
+        ensures final(self).tabs@ == old(self).tabs@, final(self).out@ == old(self).out@, final(self).cnts@ == old(self).cnts@.insert(*p, (old(self).cnts@[*p].0 + 1, old(self).cnts@[*p].1)),
+    { self.bump_counter(p, Ghost(1), Ghost(0)); }
+    pub fn dec_strong(&mut self, p: &Ptr)
+        ensures final(self).tabs@ == old(self).tabs@, final(self).out@ == old(self).out@, final(self).cnts@ == old(self).cnts@.insert(*p, (old(self).cnts@[*p].0 - 1, old(self).cnts@[*p].1)),
+    { self.bump_counter(p, Ghost(-1), Ghost(0)); }
+    pub fn inc_weak(&mut self, p: &Ptr)
+        ensures final(self).tabs@ == old(self).tabs@, final(self).out@ == old(self).out@, final(self).cnts@ == old(self).cnts@.insert(*p, (old(self).cnts@[*p].0, old(self).cnts@[*p].1 + 1)),
+    { self.bump_counter(p, Ghost(0), Ghost(1)); }
+    pub fn dec_weak(&mut self, p: &Ptr)
+        ensures final(self).tabs@ == old(self).tabs@, final(self).out@ == old(self).out@, final(self).cnts@ == old(self).cnts@.insert(*p, (old(self).cnts@[*p].0, old(self).cnts@[*p].1 - 1)),
+    { self.bump_counter(p, Ghost(0), Ghost(-1)); }
 }
 
 } // verus!
